@@ -3,8 +3,9 @@
 import json, os, sys
 HERE = os.path.dirname(os.path.dirname(os.path.abspath(__file__)))
 
-# workload classes added after rounds 14-17 of seeded changes (DESIGN.md section 7.4b)
+# workload classes added after rounds 14-18 of seeded changes (DESIGN.md section 7.4b)
 LATER = {
+ "C01": " Later additions: the message returned by VerifyHashEnvelope verifies and serialises again; one kid in several signer slots; signing again after a later signer failed and the payload was corrected.",
  "C02": " Later additions: received messages signed again are emitted with the protected bytes that were signed; signers kept from one received COSE_Sign while the variable receives the next; a refused verification changes nothing about the next one; RawProtected replaced after decoding; protected headers of 64 KiB / 16 MiB with every head width.",
  "C03": " Later additions: hash envelopes naming registered hash algorithms the library has no digest length for.",
  "C04": " Later additions: an algorithm mismatch combined with a second defect still yields the mismatch error; two different alg values under two Go spellings of label 1 let nothing proceed.",
@@ -12,16 +13,16 @@ LATER = {
  "C06": " Later additions: integers at the ends of their ranges in every selecting position, CWT claims of every registered shape incl. the confirmation claim, envelope rules reached through an accepting verifier.",
  "C07": " Later additions: repeated identical COSE_Signature entries; alg in the unprotected bucket of layers signed with external data.",
  "C08": " Later additions: received messages signed again (emitted protected bytes = signed = received); the objects inside one received message encode identically on every decode.",
- "C09": " Later additions: with only the outer raw unprotected bytes discarded, the countersignature layers below come out byte-identical; every array head of a message in every wider spelling, the prediction keeps the sender's structure heads.",
- "C10": " Later additions: VerifyCountersign0 with no signature argument fails also when the parent's header carries a valid abbreviated countersignature; embedding structs, pointer chains, pointers to interfaces and defined types over the parent structs are refused.",
+ "C09": " Later additions: with only the outer raw unprotected bytes discarded, the countersignature layers below come out byte-identical; every array head of a message in every wider spelling, the prediction keeps the sender's structure heads; countersignature chains of depth 4-8.",
+ "C10": " Later additions: VerifyCountersign0 with no signature argument fails also when the parent's header carries a valid abbreviated countersignature; embedding structs, pointer chains, pointers to interfaces and defined types over the parent structs are refused; parent signatures whose bytes read as CBOR themselves.",
  "C11": " Later additions: verifiers whose Go type has extra methods (KeyID, Kid, Public, ...); signer layers received separately with a wide protected head attached to a local body.",
  "C12": " Later additions: hand-made raw unprotected bytes whose values break general header rules; locations of white space only; digit-only content types; registered hash ids without a length rule; text that is not UTF-8 (open finding F4).",
- "C13": " Later additions: CBOR simple values in every int-or-text position; integer label 0 vs the empty text label and digit-string labels in crit.",
+ "C13": " Later additions: CBOR simple values in every int-or-text position; integer label 0 vs the empty text label and digit-string labels in crit; IV and Partial IV in different layers of one message.",
  "C14": " Later additions: a key-derived signer keeps signing with its key after the Key variable was re-used, wiped or cleared; extra parameters under small negative labels.",
- "C15": " Later additions: digit-string text labels instead of and next to the integer labels with conflicting values.",
+ "C15": " Later additions: digit-string text labels instead of and next to the integer labels with conflicting values; SEC1 points carried in x.",
  "C16": " Later additions: key objects given a key of another curve after the signer/verifier was first used; a valid signature followed or preceded by whole further fields.",
  "C17": " Later additions: RSA moduli of 8192-16384 bits; keys that cannot be asked for their public half with unsupported algorithms.",
- "C18": " Later additions: countersignatures attached to decoded messages afterwards; hand-assembled keys with an integer curve; shared messages whose RawProtected is not one byte string.",
+ "C18": " Later additions: countersignatures attached to decoded messages afterwards; hand-assembled keys with an integer curve; shared messages whose RawProtected is not one byte string; URL objects as x5u; keys with int-typed parameter labels.",
  "C19": " Later additions: structurally fine, semantically odd inputs (typ naming another structure, x5t not matching x5chain, ...) decoded into used destinations.",
  "C20": " Later additions: received objects (both raw buckets present) re-signed by failing signers must not serialise; signers whose SignDigest behaves differently from Sign; SignHashEnvelope with a working signer and inputs a later step objects to.",
 }
